@@ -444,7 +444,12 @@ def gen_fit_inputs(rng, n, max_N=(6, 4, 3), combos=None):
             # "long dataset" stream: more snapshots than the solvers' default batch size (100), with a remainder, so
             # that the snapshot-batch loop of EVERY solver (also those the API gives no batch_size) runs unequal batches
             n_snap = max(n_snap, rng.choice([101, 130, 137]))
-        yield {"crystal": cr, "orders": list(orders), "n_snap": n_snap, "data_seed": rng.randrange(10 ** 6),
+        amp = 0.05
+        if max(orders) <= 3 and rng.random() < 0.35:
+            # small-amplitude stream (only where the normal equations stay well conditioned: orders <= 3)
+            amp = rng.choice([1e-3, 3e-4])
+        yield {"crystal": cr, "orders": list(orders), "n_snap": n_snap, "data_seed": rng.randrange(10 ** 6), "amp": amp,
+               "tol": 1e-6 if amp >= 0.01 else 1e-5,
                "compact": rng.random() < 0.5, "batch_size": rng.choice([None, 1, 3, 7]),
                "hooks": hooks}
 
